@@ -18,7 +18,7 @@ RULE = (
     "regimes), optional row/col dimensions, y with its dimensions in any "
     "order, z values in ascending or shuffled order, x as coordinate or as a "
     "variable (also 2-D x and y without z), NaN/inf patterns incl. all-NaN "
-    "series, optional y_err and colour variable c, multi-variable y, log "
+    "series, optional y_err and colour variable c (with missing values of their own), multi-variable y, log "
     "axes, colors None/True/list, named colour maps (plain, reversed, log), "
     "markers, legend/colorbar overrides, legend_marker_alpha, bins; plot "
     "kinds lineplot, scatter, histogram, heatmap, auto_lineplot, "
@@ -108,6 +108,14 @@ def build(case):
     dv["y2"] = (order, data(case["seed"] + 4))
     dv["ye"] = (order, np.abs(data(case["seed"] + 5)) / 10)
     dv["cc"] = (order, data(case["seed"] + 6, positive=True))
+    if case.get("aux_nan"):
+        # the auxiliary variables are missing at positions of their own,
+        # unrelated to where y is missing
+        ra = random.Random(case["seed"] + 7)
+        for nm in ("ye", "cc"):
+            m = np.array([ra.random() < case["aux_nan"]
+                          for _ in range(y.size)]).reshape(shape)
+            dv[nm] = (order, np.where(m, np.nan, dv[nm][1]))
     czv = [1.5 + 0.75 * i * i for i in range(nz)]
     if case.get("z_shuffled"):
         random.Random(case["seed"] + 10).shuffle(czv)
@@ -329,9 +337,11 @@ def check_xy(case, ds, fig, kind, xname, multi, extra, opts):
             require(label == str(s), "series-label",
                     f"series {i} labelled {label!r}, expected {str(s)!r}")
             if kind == "scatter" and extra.get("c"):
-                arr = np.asarray(art.get_array(), float)
+                arr = np.ma.filled(np.ma.asarray(art.get_array(), float),
+                                   np.nan)
                 cref = ref[-1]
-                require(np.array_equal(arr, cref), "scatter-colour-data",
+                require(np.array_equal(arr, cref, equal_nan=True),
+                        "scatter-colour-data",
                         f"series {i}: colour array {arr.tolist()} vs c at "
                         f"the kept points {cref.tolist()}")
                 if len(arr):
@@ -363,11 +373,18 @@ def check_xy(case, ds, fig, kind, xname, multi, extra, opts):
                     f"{len(segs)} error-bar collections")
             for i, lc in enumerate(segs):
                 ref = series_xy(sub.isel(z=i), xname, "y", ["ye"])
-                got = np.asarray(lc.get_segments(), float).reshape(-1, 2, 2)
+                # raw path vertices (get_segments() cleans NaN vertices away)
+                got = np.asarray([np.asarray(p.vertices, float)
+                                  for p in lc.get_paths()],
+                                 float).reshape(-1, 2, 2)
                 want = np.stack([np.stack([ref[0], ref[1] - ref[2]], 1),
                                  np.stack([ref[0], ref[1] + ref[2]], 1)], 1)
+                # a point without an error value has no bar (matplotlib blanks
+                # the whole segment), the point itself is still on the line
+                want[~np.isfinite(ref[2])] = np.nan
                 require(got.shape == want.shape and
-                        np.allclose(got, want, rtol=0, atol=1e-12),
+                        np.allclose(got, want, rtol=0, atol=1e-12,
+                                    equal_nan=True),
                         "errorbar-data", f"series {i} error bars")
     # ---- colours from z or from the colour variable
     use_c = kind == "lineplot" and extra.get("c")
@@ -537,6 +554,8 @@ def strategy(draw):
                 not case.get("multi_y"):
             case["c"] = True
             case["colors"] = None
+        if case.get("y_err") or (case.get("c") and kind == "scatter"):
+            case["aux_nan"] = draw(st.sampled_from([0.0, 0.3]))
         if case.get("multi_y") and case["colors"] is True:
             case["colors"] = None
         # a colour bar only makes sense with a colour mapping
